@@ -14,7 +14,7 @@ BUDGET = {"quick": 800, "thorough": 14000}
 TECHNIQUE = "property-based testing: structure against the generator's mesh, per-level per-box metamorphic data oracles, poison differential"
 RULE = ("As C07 (nested 3D plotfiles with analytic fields A / K / T / R, constructed positions, 3 normals, level limits, "
         "field lists) plus ~15% inputs whose written slice exceeds the 1 MB file-splitting threshold (64x64 footprint, "
-        "33-95 fields, 9-64 boxes per level). Output read by the independent reader: taste accepts (incl. coordinates); "
+        "33-200 fields i.e. 2-7 binary files, 4-40 boxes per level). Output read by the independent reader: taste accepts (incl. coordinates); "
         "time, in-plane bounds, cell sizes, level count; per level the multiset of footprints of exactly the boxes whose "
         "closed normal extent contains p; per box and field the level's own stored samples interpolated linearly "
         "(A == alpha+beta*p away from the domain faces and the nearest sample within the first / last half cell of the "
@@ -194,4 +194,5 @@ def check_case(case, ctx):
         files = set(fn for fn, _ in olev["fod"])
         if len(files) > 1:
             ctx.label("level-split-over-files")
+            ctx.label(f"split:{len(olev['idx'])}boxes/{len(files)}files")
     return v
